@@ -40,6 +40,7 @@ from typing import Any
 import lib
 import proto
 import real  # noqa: F401  (sets sys.path to the repo under test)
+import http_tr
 import reloader_tr
 from rbacx.core.cache import DefaultInMemoryCache
 from rbacx.core.engine import Guard
@@ -1437,6 +1438,18 @@ def check(run: lib.Run, audit: dict) -> int:
     else:
         ok_py, detail_py = translated_vs_python(run, tr, tr_diffs)
     run.obligation(reloader_tr.DIFFERENTIAL, ok_py, detail_py)
+    # HTTPPolicySource.load / etag / __init__ as they are written NOW, translated into Lean (plugin src_translation_http), are proved equal to
+    # the model's httpLoad / httpEtag under the stated refinement (per-run obligation); the translation is run against the real methods
+    htr = audit["facts"].get("translated_http")
+    h_untranslatable = isinstance(htr, dict) and "extraction_failed" in htr
+    ok_h, detail_h = lib.run_obligation("C10_http_translated")
+    run.obligation(http_tr.OBLIGATION, ok_h, "discharged" if ok_h else (str(htr["extraction_failed"]) if h_untranslatable else detail_h))
+    h_diffs: list[dict] = []
+    if h_untranslatable or not isinstance(htr, dict):
+        ok_hpy, detail_hpy = True, "skipped: the methods are not in the translatable subset (see C10_http_translated)"
+    else:
+        ok_hpy, detail_hpy = http_tr.translated_vs_python(run, htr, h_diffs)
+    run.obligation(http_tr.DIFFERENTIAL, ok_hpy, detail_hpy)
     with tempfile.TemporaryDirectory(prefix="c10_") as tmpdir, _Patched():
         # 1. corpus: finding witnesses and past disagreements first
         f9_witness_reproduces = False
@@ -1462,8 +1475,8 @@ def check(run: lib.Run, audit: dict) -> int:
             elif v["disagree"]:
                 run.disagreements.append(v)
         # 2. enumeration + random
-        run_cases(run, tally, all_cases(run, scale=run.boost * (1 if ok_tr else 2)), tmpdir)
-        if (run.disagreements or not ok_tr) and not run.spec_failures and not violations:
+        run_cases(run, tally, all_cases(run, scale=run.boost * (1 if (ok_tr and ok_h) else 2)), tmpdir)
+        if (run.disagreements or not ok_tr or not ok_h) and not run.spec_failures and not violations:
             run_cases(run, tally, all_cases(run, scale=4 if run.boost == 1 else 2), tmpdir)   # correspondence broke: widen the search for a failing input
         # 2b. the shipped file source fed by the library's own writer (directed; real FilePolicySource / HotReloader / Guard)
         lw = library_writer(run, tmpdir)
@@ -1497,6 +1510,21 @@ def check(run: lib.Run, audit: dict) -> int:
             path = run.write_replay("correspondence", {
                 "what": "translated source vs python: " + detail_py + "; the obligation C10_translated rests on a translation that CPython "
                         "contradicts (or that could not be evaluated)", "first": tr_diffs[:1]})
+            violations.append((path, False))
+        if not violations and not ok_h:
+            path = run.write_replay("obligation_http", {
+                "what": "per-run obligation Rbacx/Run/C10_http_translated.lean no longer checks: the translated source of HTTPPolicySource.load / "
+                        "etag / __init__ is not proved to be the model's httpLoad / httpEtag (Model/Sources.lean), the functions theorems "
+                        "Rbacx.C10.c10_converges_http_partial / c10_http_* and the HTTP rows of the differential run are about; the widened "
+                        "search found no history on which the real reloader over the real HTTP source violates C10",
+                "translation": htr if h_untranslatable else {k: v for k, v in (htr or {}).items() if k != "lean"}, "lean": detail_h[-1500:],
+                "translated_vs_python": detail_hpy, "first_disagreement": h_diffs[:1],
+                "statements_of_the_theorems_violated_on_the_real_code": run.extra.get("http_source_clauses_violated_on_the_real_code")})
+            violations.append((path, False))
+        elif not violations and not ok_hpy:
+            path = run.write_replay("correspondence_http", {
+                "what": "translated HTTP source vs python: " + detail_hpy + "; the obligation C10_http_translated rests on a translation that "
+                        "CPython contradicts (or that could not be evaluated)", "first": h_diffs[:1]})
             violations.append((path, False))
     # 4. F9: which variant does the code refine?
     variant = ("cached" if tally.http_cases and tally.http_cached_ok == tally.http_cases else
@@ -1537,6 +1565,13 @@ def replay(run: lib.Run, audit: dict, path: str) -> int:
         ok_tr, detail_tr = lib.run_obligation("C10_translated")
         print("recorded:", json.dumps({k: v for k, v in rp.items() if k != "translation"}, default=str)[:3000])
         print("obligation C10_translated now:", "discharged" if ok_tr else detail_tr[:1500])
+        htr = audit["facts"].get("translated_http")
+        ok_h, detail_h = lib.run_obligation("C10_http_translated")
+        print("obligation C10_http_translated now:", "discharged" if ok_h else detail_h[:1500])
+        if isinstance(htr, dict) and "extraction_failed" not in htr:
+            hsink: list = []
+            print("translated HTTP source vs python now:", http_tr.translated_vs_python(run, htr, hsink)[1], json.dumps(hsink[:1], default=str)[:1500])
+        ok_tr = ok_tr and ok_h
         if isinstance(tr, dict) and "extraction_failed" not in tr:
             sink: list = []
             print("translated vs python now:", translated_vs_python(run, tr, sink)[1], json.dumps(sink[:1], default=str)[:1500])
